@@ -20,6 +20,8 @@ def swarm(rng):
         cfg.update({"gadget_recalc_item": True, "recalc": True, "n_spaces": max(cfg["n_spaces"], 3)})
     elif rng.random() < 0.1:
         cfg.update({"gadget_attr_readers": True, "n_spaces": max(cfg["n_spaces"], 3)})
+    elif rng.random() < 0.1:
+        cfg.update({"gadget_base_switch_del": True, "n_spaces": max(cfg["n_spaces"], 3), "n_steps": rng.choice([4, 12])})
     elif rng.random() < 0.15:
         cfg.update({"gadget_refs_only": True, "cellsless_paths": ["D", "C.U"], "n_spaces": max(cfg["n_spaces"], 3)})
     return cfg
@@ -409,7 +411,26 @@ class C13(PropBase):
                            {"op": "eval", "loc": ["A"], "name": "f", "args": [1], "spell": "pos"},
                            {"op": "eval", "loc": ["A"], "name": "g", "args": [2], "spell": "pos"}):
                     run.step(op)
+            if cfg.get("gadget_base_switch_del"):
+                # a parametrised space whose instances are built from ANOTHER space (the formula names a base): they are
+                # registered with that base, and have to go all the same when the parametrised space itself is deleted
+                for op in ({"op": "new_space", "parent": "", "name": "B", "bases": []},
+                           {"op": "new_cells", "space": "B", "name": "f", "is_cached": True,
+                            "formula": {"style": "lambda", "params": [["x", None]], "ret": ["bin", "+", ["p", "x"], ["c", 5]]}},
+                           {"op": "new_space", "parent": "", "name": "A", "bases": [],
+                            "formula": {"params": [["i", None]], "ret": {"base": "B"}, "probe": False}},
+                           {"op": "eval", "loc": ["A", ["item", [1], "idx"]], "name": "f", "args": [2], "spell": "pos"},
+                           {"op": "take_handle", "kind": "item", "space": "A", "args": [1]},
+                           {"op": "take_handle", "kind": "dyncells", "space": "A", "args": [1], "name": "f"}):
+                    run.step(op)
             run.generate(WEIGHTS, cfg["n_steps"], 0.0 if cfg.get("quiet") else cfg["p_check"])
+            if cfg.get("gadget_base_switch_del"):
+                ra = run.mach.ref.space("A")
+                # (a formula of the random history that reaches A by the path _model.A is the known C02 finding: left alone)
+                if ra is not None and run.mach.space_editable(ra) and run.mach.deletable(ra):
+                    qi = {"op": "eval", "loc": ["A", ["item", [1], "idx"]], "name": "f", "args": [2], "spell": "pos"}
+                    for op in (qi, {"op": "del_space", "space": "A", "how": "delattr"}, {"op": "checkpoint", "extra": [], "final": True}):
+                        run.step(op)
             if cfg.get("gadget_attr_readers"):
                 # whatever is left of it: both hold a value, one of them is cleared for a reason of its own, the reference is
                 # deleted (or rebound), and the other is asked again
